@@ -80,6 +80,12 @@ def make_graph(rng):
     # relabel sometimes to non-contiguous / non-int ids
     if rng.random() < 0.2:
         g = nx.relabel_nodes(g, {v: "v%d" % v for v in g.nodes()})
+    if rng.random() < 0.5:
+        h = nx.Graph()
+        ns = list(g.nodes()); rng.shuffle(ns)
+        es = [e if rng.random() < 0.5 else (e[1], e[0]) for e in g.edges()]; rng.shuffle(es)
+        h.add_nodes_from(ns); h.add_edges_from(es)
+        g = h
     return k, g
 
 
